@@ -1,7 +1,7 @@
 (** Extraction of the C05 models (inline, window elimination, validator).  Directives: ExtrOcamlBasic only. *)
 From Coq Require Import ZArith List QArith Qcanon.
 From Core Require Import Syntax Sem.
-From Unify Require Import Inline.
+From Unify Require Import Inline Alpha Elim Validate.
 Require Extraction.
 Require Import ExtrOcamlBasic.
 Extraction Language OCaml.
@@ -9,4 +9,4 @@ Extraction Language OCaml.
 Definition mk_qc (n : Z) (d : positive) : Qc := Q2Qc (Qmake n d).
 Definition qc_num (q : Qc) : Z := Qnum (this q).
 Definition qc_den (q : Qc) : positive := Qden (this q).
-Extraction "unify_model.ml" do_inline inline_call mk_qc qc_num qc_den.
+Extraction "unify_model.ml" do_inline inline_call elim_ws validate validate_strict inline_ok binds_nothing mk_qc qc_num qc_den.
